@@ -781,9 +781,30 @@ Example c13_nonvacuous_ordered_set :
   oset_of_list bytes_ltb [[114; 100; 120]; [114; 99; 120]; [114; 97; 120]; [114; 99; 120]] = [[114; 97; 120]; [114; 99; 120]; [114; 100; 120]].
 Proof. split; vm_compute; reflexivity. Qed.
 
+(* ---- calculate_heuristics' loop over the valid registers of the crashing context (nearby_registers, poison_registers): a count
+   and an any — the same for every order of the registers (the order is in fact fixed: MinidumpContext::valid_registers filters
+   the REGISTERS slice; see Sites.PublicApiOnly for the HashSet iterator next to it) *)
+Theorem c13_register_scan_order_independent :
+  forall (near pois : Z -> bool) (i1 i2 : list Z), Permutation i1 i2 ->
+  register_scan near pois i1 = register_scan near pois i2 /\
+  register_scan near pois i1 = (length (filter near i1), existsb pois i1).
+Proof. intros near pois i1 i2 H. split; [apply register_scan_perm; exact H|apply register_scan_closed]. Qed.
+Print Assumptions c13_register_scan_order_independent.
+
+Example c13_nonvacuous_register_scan :
+  register_scan (fun a => a <? 10) (fun a => a =? 5) [1; 20; 5; 7] = (3%nat, true) /\
+  register_scan (fun a => a <? 10) (fun a => a =? 5) [7; 5; 20; 1] = (3%nat, true).
+Proof. split; vm_compute; reflexivity. Qed.
+
 (* ---- every iteration over an ORDERED container and every field declared as one is an enumerated, classified site *)
 Theorem c13_ordered_sites_modelled :
   RM.Gen.C13Sites.ordered_iteration_sites = map fst modelled_ordered_iteration_sites /\
   RM.Gen.C13Sites.ordered_container_fields = map fst modelled_ordered_container_fields.
 Proof. split; reflexivity. Qed.
 Print Assumptions c13_ordered_sites_modelled.
+
+(* ... and the six pieces of code that Model.cert_of and C13/Unloaded.v model read today exactly as they did when the model was written *)
+Theorem c13_pinned_code_modelled :
+  RM.Gen.C13Sites.pinned_model_code = map fst modelled_pinned_code.
+Proof. reflexivity. Qed.
+Print Assumptions c13_pinned_code_modelled.
